@@ -831,6 +831,20 @@ impl Suite for Capture {
             out.obs.push("panic".into());
             out.fails.push("C16 a capture layer callback panicked".into());
         }
+        // what reaches the subscriber at all is decided by the global filter alone: a capture layer's
+        // own filter must not switch call sites off for the whole stack
+        if !panicked {
+            let passes = |k: usize| cfg.global.map_or(true, |g| prog.sites.get(k).map_or(false, |s| s.level <= g));
+            let want_spans = prog.ops.iter().filter(|o| matches!(o, POp::New { k, .. } if passes(*k))).count();
+            let want_events = prog.ops.iter().filter(|o| matches!(o, POp::Evt { k, .. } if passes(*k))).count();
+            let got_spans = fe_log.iter().filter(|c| matches!(c, program::FeCall::NewSpan { .. })).count();
+            let got_events = fe_log.iter().filter(|c| matches!(c, program::FeCall::Event { .. })).count();
+            if got_spans != want_spans || got_events != want_events {
+                let msg = format!("the program creates {want_spans} spans and {want_events} events that pass the global filter, but only {got_spans} spans and {got_events} events were emitted to the subscriber (a layer's own filter must not disable call sites for the whole stack)");
+                out.fails.push(format!("C05 {msg}"));
+                out.fails.push(format!("C16 {msg}"));
+            }
+        }
         let mut dumps: Vec<Vec<String>> = vec![];
         for (i, st) in storages.iter().enumerate() {
             let mut d = vec![];
